@@ -383,3 +383,84 @@ PROPS['C14'] = dict(level=MC, rule=RULE_PAT, assumptions=ASSUME_PAT,
                     workloads=[W_PAT_VEC, W_PAT_WPT, WPAT('match-grammar', gen_pattern.w_match_grammar, 2500, 100000),
                                WPAT('constructor-strings', gen_pattern.w_constructor_strings, 800, 30000),
                                WPAT('match-grammar-sanitized', gen_pattern.w_match_grammar, 200, 8000, configs=['asan'])])
+
+
+# ---- direction A + B for hosts: MC_Host (IPv4 / IPv6 spelling lattice), replayed as http://<spelling>/ , ws:// and a://
+HOST_BEHAVIOURS = []
+
+
+def collect_host_behaviours(r, cov, problems):
+    import json as _json
+    n = 0
+    for ln in r['out'].splitlines():
+        if ln.startswith('"@@B '):
+            try:
+                rec = _json.loads(_json.loads(ln)[4:])
+            except ValueError:
+                continue
+            HOST_BEHAVIOURS.append(bytes(rec['s']))
+            n += 1
+    cov['tlc_behaviours_emitted'] = cov.get('tlc_behaviours_emitted', 0) + n
+    if n == 0:
+        problems.append('the MC_Host run emitted no spellings for replay')
+
+
+def w_host_replay(ops, rng, n):
+    hs = HOST_BEHAVIOURS
+    if n and len(hs) > n:
+        hs = rng.sample(hs, n)
+    for k, h in enumerate(hs):
+        if k % 4 == 0:
+            ops.reset()
+        ops.parse(1, 0, b'http://' + h + b'/')
+        ops.reparse(1)
+        if k % 3 == 0:
+            ops.parse(2, 0, b'ws://u@' + h + b':81/p?q')
+        if k % 5 == 0:
+            ops.parse(3, 0, b'http://example.com/')
+            ops.set(3, 'host', h)
+
+
+M_HOST = dict(module='MC_Host', cfg_quick='MC_Host_quick', cfg_thorough='MC_Host_thorough', post=[collect_host_behaviours], timeout=3000)
+PROPS['C10'].setdefault('models', []).append(M_HOST)
+PROPS['C10']['workloads'].insert(0, dict(name='tlc-spellings-replayed', gen=w_host_replay, n_quick=4000, n_thorough=0, replayable=True))
+
+
+# ---- direction A + B for URLPattern: MC_UrlPattern (constructor-string state machine; generate o parse = id), replayed
+PAT_BEHAVIOURS = []
+
+
+def collect_pat_behaviours(r, cov, problems):
+    import json as _json
+    n = 0
+    for ln in r['out'].splitlines():
+        if ln.startswith('"@@B '):
+            try:
+                rec = _json.loads(_json.loads(ln)[4:])
+            except ValueError:
+                continue
+            PAT_BEHAVIOURS.append(bytes(rec['s']))
+            n += 1
+    cov['tlc_behaviours_emitted'] = cov.get('tlc_behaviours_emitted', 0) + n
+    if n == 0:
+        problems.append('the MC_UrlPattern run emitted no constructor strings for replay')
+
+
+def w_pat_replay(ops, rng, n):
+    po = gen_pattern.POps(ops)
+    ss = PAT_BEHAVIOURS
+    if n and len(ss) > n:
+        ss = rng.sample(ss, n)
+    for k, s in enumerate(ss):
+        po.reset()
+        base = None if k % 3 else 'https://example.com/a/b?q#f'
+        po.pat(s.decode('utf-8', 'replace'), base, k % 7 == 0)
+        po.match(s.decode('utf-8', 'replace'), base)
+        po.match('https://h:80/h?h#h')
+
+
+M_PAT = dict(module='MC_UrlPattern', cfg_quick='MC_UrlPattern_quick', cfg_thorough='MC_UrlPattern_thorough', post=[collect_pat_behaviours],
+             timeout=3000)
+for _p in ('C14', 'C15'):
+    PROPS[_p].setdefault('models', []).append(M_PAT)
+    PROPS[_p]['workloads'].insert(2, WPAT('tlc-constructor-strings-replayed', w_pat_replay, 1500, 0, replayable=True))
